@@ -1,0 +1,55 @@
+//go:build verif
+
+package engine
+
+// Observation hooks for the arithmetic kernels of number.go (verification harness in /verif,
+// build tag "verif"). Nothing here changes behaviour; without the tag this file is not compiled.
+
+import "fmt"
+
+// VerifEvalFunctorE applies an evaluable functor from the dispatch tables to numbers and returns
+// the error exactly as the kernel produced it (an exceptionalValue or an Exception), so that the
+// harness can canonicalise it. A Go panic is reported as an error whose text starts with "panic:".
+func VerifEvalFunctorE(name string, args ...Number) (res Number, err error) {
+	defer func() {
+		if p := recover(); p != nil {
+			res, err = nil, fmt.Errorf("panic: %v", p)
+		}
+	}()
+	switch len(args) {
+	case 1:
+		f, ok := unaryFunctors[NewAtom(name)]
+		if !ok {
+			return nil, fmt.Errorf("unknown functor %s/1", name)
+		}
+		return f(args[0])
+	case 2:
+		f, ok := binaryFunctors[NewAtom(name)]
+		if !ok {
+			return nil, fmt.Errorf("unknown functor %s/2", name)
+		}
+		return f(args[0], args[1])
+	}
+	return nil, fmt.Errorf("unknown functor %s/%d", name, len(args))
+}
+
+// VerifExceptionalValue reports whether err is an exceptionalValue and, if so, the atom it stands for
+// (what eval turns into evaluation_error(Atom)).
+func VerifExceptionalValue(err error) (Atom, bool) {
+	ev, ok := err.(exceptionalValue)
+	if !ok {
+		return 0, false
+	}
+	return ev.Term().(Atom), true
+}
+
+// VerifFunctors lists the keys of the dispatch tables (unary, binary).
+func VerifFunctors() (unary, binary []string) {
+	for a := range unaryFunctors {
+		unary = append(unary, a.String())
+	}
+	for a := range binaryFunctors {
+		binary = append(binary, a.String())
+	}
+	return unary, binary
+}
